@@ -30,8 +30,11 @@ type c08blob struct {
 	attrs   map[string][]string // owner's current values
 	ntypes  map[string]bool     // camliNodeType values ever claimed by anyone
 	whole   string              // wholeRef of a file
-	name    string              // file name
+	name    string              // file / directory name
 	hidden  bool
+	fsize    int        // file: content length
+	children []blob.Ref // directory: its direct entries
+	hist     []c08hist  // permanode: the owner's attribute claims in the order issued
 }
 
 type c08World struct {
@@ -42,7 +45,7 @@ type c08World struct {
 	iw      *ixWorld
 }
 
-var c08Attrs = map[string]int{"camliNodeType": 1, "tag": 2, "title": 3, "dateCreated": 4, "camliDefVis": 5, "camliMember": 6, "camliPath:a": 7, "camliPath:b": 8}
+var c08Attrs = map[string]int{"camliNodeType": 1, "tag": 2, "title": 3, "dateCreated": 4, "camliDefVis": 5, "camliMember": 6, "camliPath:a": 7, "camliPath:b": 8, "rating": 9}
 
 // the live edges of a permanode: its current camliMember / camliPath:* values that name a blob of the world
 func (cw *c08World) kids(b *c08blob) []*c08blob {
@@ -133,6 +136,7 @@ func buildC08World(c *ctx, w *world) *c08World {
 		if si != 0 {
 			return
 		}
+		p.hist = append(p.hist, c08hist{t, kind, attr, v})
 		switch kind {
 		case "set":
 			p.attrs[attr] = []string{v}
@@ -192,6 +196,12 @@ func buildC08World(c *ctx, w *world) *c08World {
 			claim(0, "set", "camliDefVis", "hide")
 			p.hidden = true
 		}
+		if c.rng.Intn(3) == 0 {
+			claim(0, "set", "rating", []string{"1", "2", "3", "5", "n/a", "04"}[c.rng.Intn(6)])
+			if c.rng.Intn(3) == 0 {
+				claim(0, "add", "rating", []string{"2", "4", "x"}[c.rng.Intn(3)])
+			}
+		}
 	}
 	// edges between permanodes: members and named paths, some re-pointed (a stale edge, then possibly a live one between
 	// the same two permanodes, in either order), some removed again
@@ -239,6 +249,9 @@ func buildC08World(c *ctx, w *world) *c08World {
 		if p.ctype == "permanode" && c.rng.Intn(7) == 0 {
 			p.deleted = true
 			add(w.claim(0, schema.NewDeleteClaim(p.ref), base.Add(time.Hour)), "claim")
+			if base.Add(time.Hour).After(p.mtime) {
+				p.mtime = base.Add(time.Hour) // the delete claim is a claim on the permanode: it is its latest modification
+			}
 		}
 	}
 	// files over a small pool of contents (so wholeRefs are shared), a directory
@@ -257,19 +270,36 @@ func buildC08World(c *ctx, w *world) *c08World {
 		fj, _ := fm.JSON()
 		f := add(&test.Blob{Contents: fj}, "file")
 		f.name = fmt.Sprintf("f%d.txt", i)
+		f.fsize = len(content)
 		f.whole = blob.RefFromString(content).String()
 		fileRefs = append(fileRefs, f.ref)
 	}
-	if c.rng.Intn(2) == 0 {
+	// directories: "sub" (some files) inside "dir" (the other files), possibly inside "top"; or one flat directory
+	mkdir := func(name string, members []blob.Ref) *c08blob {
 		ss := schema.NewStaticSet()
-		subsets := ss.SetStaticSetMembers(fileRefs)
+		subsets := ss.SetStaticSetMembers(members)
 		top := add(&test.Blob{Contents: ss.Blob().JSON()}, "static-set")
 		for _, s := range subsets {
 			add(&test.Blob{Contents: s.JSON()}, "static-set")
 		}
-		dm := schema.NewDirMap("dir").PopulateDirectoryMap(top.ref)
+		dm := schema.NewDirMap(name).PopulateDirectoryMap(top.ref)
 		dj, _ := dm.JSON()
-		add(&test.Blob{Contents: dj}, "directory")
+		d := add(&test.Blob{Contents: dj}, "directory")
+		d.name = name
+		d.children = append([]blob.Ref(nil), members...)
+		return d
+	}
+	switch c.rng.Intn(4) {
+	case 0:
+	case 1:
+		mkdir("dir", fileRefs)
+	default:
+		k := 1 + c.rng.Intn(len(fileRefs)-1)
+		sub := mkdir("sub", fileRefs[:k])
+		dir := mkdir("dir", append(append([]blob.Ref(nil), fileRefs[k:]...), sub.ref))
+		if c.rng.Intn(2) == 0 {
+			mkdir("top", []blob.Ref{dir.ref})
+		}
 	}
 	for i := 0; i < c.rng.Intn(3); i++ {
 		add(&test.Blob{Contents: fmt.Sprintf("opaque %d", c.rng.Int63())}, "")
@@ -393,6 +423,15 @@ type qc struct {
 	absentRef                      blob.Ref
 	rel                            *qc // PermanodeConstraint{Relation}: the Any / All sub-constraint
 	relParent, relAll              bool
+	// SPEC-only (c08x.go)
+	valAll     bool
+	vmInt      *[2]int
+	inSet      *qc
+	modT, anyT *c08time
+	at         time.Time
+	fileSize   *[2]int
+	fParent    *dqc
+	dir        *dqc
 }
 
 func (q *qc) hasVM() bool { return q.vmEquals != "" || q.vmContains != "" || q.vmPrefix != "" }
@@ -407,14 +446,14 @@ func (q *qc) vmMatches(v string) bool {
 }
 
 func (q *qc) isEmpty() bool {
-	return q.op == "" && !q.anything && q.camli == "" && !q.anycamli && !q.perm && q.whole == 0 && q.fileName == "" && q.size == nil && q.refis == 0 && q.prefix == ""
+	return q.op == "" && !q.anything && q.camli == "" && !q.anycamli && !q.perm && q.whole == 0 && q.fileName == "" && q.size == nil && q.refis == 0 && q.prefix == "" && !q.richX()
 }
 
 func (q *qc) rich() bool {
 	if q == nil {
 		return false
 	}
-	return q.skipHidden || q.numValMin > 0 || q.fileName != "" || q.a.rich() || q.b.rich() || q.rel.rich()
+	return q.skipHidden || q.numValMin > 0 || q.fileName != "" || q.a.rich() || q.b.rich() || q.rel.rich() || q.richX()
 }
 
 func (q *qc) String() string {
@@ -450,13 +489,24 @@ func (q *qc) String() string {
 		if q.numValMin > 0 {
 			s += fmt.Sprintf(" numValue>=%d", q.numValMin)
 		}
+		s += q.permExtraString()
 		if q.rel != nil {
 			s += fmt.Sprintf(" relation{%s %s %s}", map[bool]string{true: "parent", false: "child"}[q.relParent], map[bool]string{true: "all", false: "any"}[q.relAll], q.rel.String())
 		}
 		f = append(f, s+"}")
 	}
-	if q.whole != 0 || q.fileName != "" {
-		f = append(f, fmt.Sprintf("file{whole#%d name^%q}", q.whole, q.fileName))
+	if q.whole != 0 || q.fileName != "" || q.fileSize != nil || q.fParent != nil {
+		x := fmt.Sprintf("file{whole#%d name^%q", q.whole, q.fileName)
+		if q.fileSize != nil {
+			x += fmt.Sprintf(" size[%d,%d]", q.fileSize[0], q.fileSize[1])
+		}
+		if q.fParent != nil {
+			x += " parentDir=" + q.fParent.String()
+		}
+		f = append(f, x+"}")
+	}
+	if q.dir != nil {
+		f = append(f, q.dir.String())
 	}
 	if q.size != nil {
 		f = append(f, fmt.Sprintf("size[%d,%d]", q.size[0], q.size[1]))
@@ -489,6 +539,14 @@ func (q *qc) toSearch(cw *c08World) *search.Constraint {
 		if q.hasVM() {
 			pc.ValueMatches = &search.StringConstraint{Equals: q.vmEquals, Contains: q.vmContains, HasPrefix: q.vmPrefix, CaseInsensitive: q.vmFold}
 		}
+		pc.ValueAll, pc.At = q.valAll, q.at
+		if q.vmInt != nil {
+			pc.ValueMatchesInt = &search.IntConstraint{Min: int64(q.vmInt[0]), Max: int64(q.vmInt[1])}
+		}
+		if q.inSet != nil {
+			pc.ValueInSet = q.inSet.toSearch(cw)
+		}
+		pc.ModTime, pc.Time = q.modT.toSearch(), q.anyT.toSearch()
 		if q.rel != nil {
 			rc := &search.RelationConstraint{Relation: map[bool]string{true: "parent", false: "child"}[q.relParent]}
 			if q.relAll {
@@ -500,15 +558,21 @@ func (q *qc) toSearch(cw *c08World) *search.Constraint {
 		}
 		sc.Permanode = pc
 	}
-	if q.whole != 0 || q.fileName != "" {
-		fc := &search.FileConstraint{}
+	if q.whole != 0 || q.fileName != "" || q.fileSize != nil || q.fParent != nil {
+		fc := &search.FileConstraint{ParentDir: q.fParent.toSearch(cw)}
 		if q.whole != 0 {
 			fc.WholeRef = blob.MustParse(cw.wholes[q.whole-1])
 		}
 		if q.fileName != "" {
 			fc.FileName = &search.StringConstraint{HasPrefix: q.fileName}
 		}
+		if q.fileSize != nil {
+			fc.FileSize = &search.IntConstraint{Min: int64(q.fileSize[0]), Max: int64(q.fileSize[1])}
+		}
 		sc.File = fc
+	}
+	if q.dir != nil {
+		sc.Dir = q.dir.toSearch(cw)
 	}
 	if q.size != nil {
 		sc.BlobSize = &search.IntConstraint{Min: int64(q.size[0]), Max: int64(q.size[1])}
@@ -606,18 +670,28 @@ func (q *qc) eval(cw *c08World, b *c08blob) bool {
 		m := b.ctype == "permanode"
 		if m && q.attr != "" {
 			vals := b.attrs[q.attr]
+			if !q.at.IsZero() {
+				vals = b.valuesAt(q.attr, q.at)
+			}
 			if q.numValMin > 0 && len(vals) < q.numValMin {
 				m = false
 			}
-			if q.val != "" || q.hasVM() {
-				found := false
+			if q.hasValueConstraint() {
+				nmatch := 0
 				for _, v := range vals {
-					if (q.val == "" || v == q.val) && (!q.hasVM() || q.vmMatches(v)) {
-						found = true
+					if q.valueMatches(cw, v) {
+						nmatch++
 					}
 				}
-				m = m && found
+				// one value must match; with valueAll, all of them
+				m = m && nmatch > 0 && (!q.valAll || nmatch == len(vals))
 			}
+		}
+		if m && q.modT != nil && !q.modT.matches(b.mtime) {
+			m = false
+		}
+		if m && q.anyT != nil && !q.anyT.matches(b.ctime) {
+			m = false
 		}
 		if m && q.skipHidden && b.hidden {
 			m = false
@@ -643,7 +717,7 @@ func (q *qc) eval(cw *c08World, b *c08blob) bool {
 		}
 		cond(m)
 	}
-	if q.whole != 0 || q.fileName != "" {
+	if q.whole != 0 || q.fileName != "" || q.fileSize != nil || q.fParent != nil {
 		m := b.ctype == "file"
 		if q.whole != 0 && b.whole != q.wholeRef {
 			m = false
@@ -651,7 +725,19 @@ func (q *qc) eval(cw *c08World, b *c08blob) bool {
 		if q.fileName != "" && !strings.HasPrefix(b.name, q.fileName) {
 			m = false
 		}
+		if q.fileSize != nil && !inRange(b.fsize, q.fileSize) {
+			m = false
+		}
+		if m && q.fParent != nil {
+			m = false
+			for _, d := range cw.parentDirs(b) {
+				m = m || q.fParent.eval(cw, d)
+			}
+		}
 		cond(m)
+	}
+	if q.dir != nil {
+		cond(q.dir.eval(cw, b))
 	}
 	if q.size != nil {
 		cond(b.size >= q.size[0] && (q.size[1] == 0 || b.size <= q.size[1]))
@@ -668,7 +754,9 @@ func (q *qc) eval(cw *c08World, b *c08blob) bool {
 func genQC(c *ctx, cw *c08World, depth int) *qc {
 	q := &qc{}
 	leaf := func() {
-		switch r := c.rng.Intn(24); {
+		switch r := c.rng.Intn(29); {
+		case r >= 24:
+			genRichLeaf(c, cw, q, depth, time.Unix(1400000000, 0).UTC())
 		case r < 1:
 			q.anything = true
 		case r < 5:
@@ -773,9 +861,9 @@ var c08Sources = map[string]int{"corpus_permanode_lastmod": 1, "corpus_permanode
 	"corpus_file_meta": 5, "corpus_blob_meta": 6, "index_blob_meta": 7}
 
 func runC08(c *ctx) {
-	c.rep.Rule = "worlds of 4-12 permanodes (tags with several values, titles, camliNodeType possibly changed/deleted/claimed by another signer, dateCreated, hidden, deleted, claim-less), their claims, 2-5 files over 3 contents (shared wholeRefs), optionally a directory with its static-set, opaque blobs; " +
+	c.rep.Rule = "worlds of 4-12 permanodes (tags with several values, titles, camliNodeType possibly changed/deleted/claimed by another signer, dateCreated, hidden, deleted, claim-less), their claims, 2-5 files over 3 contents (shared wholeRefs), integer-valued and non-integer ratings, directories (none / one flat / sub inside dir, possibly inside top) with their static-sets, opaque blobs; " +
 		"edges between permanodes (camliMember, camliPath:a/b; re-pointed paths leaving a stale edge before or after a live one between the same two permanodes, members removed again, another signer's edges); random constraint trees of depth <= 3 over logical and/or/xor/not, permanode{relation parent|child, any|all, sub-constraint}, anything, camliType, anyCamliType, blobSize, blobRefPrefix (complete / proper / absent), permanode{attr,value}, file{wholeRef}, multi-field structs, the empty struct, " +
-		"biased towards permanode-only conjunctions so that the typed/sorted candidate sources are planned (leaves numValue, skipHidden, fileName are checked against the reference evaluator only); " +
+		"biased towards permanode-only conjunctions so that the typed/sorted candidate sources are planned (leaves numValue, skipHidden, fileName, valueAll, valueMatchesInt, valueInSet, modTime, time, at, file size / parentDir and directory name / prefix / topFileCount / contains / recursiveContains / parentDir are checked against the reference evaluator only); " +
 		"every sort in {unspecified, unsorted, -mod, -created, blobref} x limits {-1,1,2,3,n-1,n,n+1}; non-trivial = distinct query with at least one match"
 	w, err := newWorld()
 	must(err)
@@ -818,6 +906,25 @@ func runC08(c *ctx) {
 					}
 				}
 			}
+			// the directory / file-tree constraints, every world
+			fn := func(p string) *qc { return &qc{fileName: p} }
+			shapes = append(shapes,
+				&qc{dir: &dqc{rcontains: fn("f")}},
+				&qc{dir: &dqc{name: "top", rcontains: fn("f")}},
+				&qc{dir: &dqc{name: "dir", rcontains: fn("f0")}},
+				&qc{dir: &dqc{top: &[2]int{1, 1}, rcontains: fn("f")}},
+				&qc{dir: &dqc{contains: &qc{dir: &dqc{name: "sub"}}}},
+				&qc{dir: &dqc{rcontains: &qc{dir: &dqc{name: "sub"}}}},
+				&qc{dir: &dqc{contains: fn("f0")}},
+				&qc{dir: &dqc{parent: &dqc{name: "top"}}},
+				&qc{dir: &dqc{parent: &dqc{parent: &dqc{name: "top"}}}},
+				&qc{fParent: &dqc{name: "sub"}},
+				&qc{fParent: &dqc{parent: &dqc{name: "dir"}}},
+				&qc{fileSize: &[2]int{2, 9}},
+				&qc{dir: &dqc{top: &[2]int{2, 0}}},
+				&qc{perm: true, attr: "tag", val: "x", valAll: true},
+				&qc{perm: true, attr: "rating", vmInt: &[2]int{2, 4}},
+				&qc{perm: true, attr: "camliMember", inSet: &qc{perm: true, attr: "tag", val: "x"}})
 			if q.String() != "" && strings.Contains(q.String(), "relation{") {
 				c.count("relation constraints", "random")
 			}
@@ -964,7 +1071,13 @@ func c08Spec(matches, got []*c08blob, unknown bool, sortName string, limit int, 
 			want = limit
 		}
 		if len(got) != want {
-			return fmt.Sprintf("%d results, want %d of %d matches", len(got), want, len(m))
+			var missing []string
+			for _, b := range m {
+				if !seen[b] && len(missing) < 4 {
+					missing = append(missing, fmt.Sprintf("#%d(%s mtime %s ctime %s deleted %v attrs %v)", b.rank, b.ctype, b.mtime.Format("15:04:05"), b.ctime.Format("15:04:05"), b.deleted, b.attrs))
+				}
+			}
+			return fmt.Sprintf("%d results, want %d of %d matches; not returned: %s", len(got), want, len(m), strings.Join(missing, " "))
 		}
 		switch {
 		case timeSorted || sortName == "-created" || sortName == "-mod":
